@@ -22,7 +22,12 @@ ASSUMPTIONS = ['patterns and paths shorter than PATH_MAX, no NUL byte; C locale 
                'claimed pattern grammar: * ? \\c [set] [!set] [^set] ranges, ] first in a set, - last in a set, unterminated [ literal, '
                'trailing backslash never matches; POSIX classes [:x:] [=x=] [.x.] and unterminated brackets ending in a dangling - or \\ are not claimed',
                'FNM_PERIOD is never passed by elem.c: leading periods are matched by wildcards (checked against libc on every run)',
-               'Windows behaviour (case folding, ^ escape, \\ separators, hidden attribute) not modelled']
+               'Windows behaviour (case folding, ^ escape, \\ separators, hidden attribute) not modelled',
+               'exercised by oracle only (no Coq model): which commands accept -f -d -m -e -b and the -e/-d incompatibility (snapraid.c:1150-1190), '
+               'the -d name that matches no disk (state.c:470-500), hard-link detection by inode and special files in scan.c, '
+               're-sync after the configuration was edited (removal of entries that became excluded), -b block selection (check.c block_is_enabled)',
+               'not reached on purpose: filter_type / *reason for disk rules (elem.c:163,248: the configuration list never holds disk rules and only the scan asks for a reason), '
+               'state_skip (needs an inaccessible disk with -D), operation dry, DT_UNKNOWN / mount point / unreadable entries in scan_sub, fatal-error branches']
 
 
 def hx(b):
@@ -283,46 +288,79 @@ def run_scenario(tool, model, drv, sc, base):
         problems.append((tag, what, rep, no_input))
     try:
         cm.materialize(root, sc)
-        cm.write_conf(root, sc)
-        rc, out = cm.run_tool(tool, root, ['sync'])
-        if sc.bad_rule is not None:
-            cnt['conf_rejected_expected'] += 1
-            if rc == 0 or b'Invalid' not in out:
-                bad('cmd_parse', 'configuration rule %r must be rejected (documented forms) but sync exit=%d' % (sc.rules[sc.bad_rule][1], rc),
-                    {'output': out.decode('latin1')[-400:]})
-            return problems, cnt
-        if rc != 0:
-            bad('cmd_sync', 'sync failed (exit %d) on a valid configuration' % rc, {'output': out.decode('latin1')[-600:]})
-            return problems, cnt
-        log = os.path.join(root, 'list.log')
-        rc, out = cm.run_tool(tool, root, ['list'], log=log)
-        lg = cm.parse_log(log)
-        c_files = set(lg.get('file', []))
-        c_links = set(lg.get('link_symlink', []))
-        # expected by the documentation, and by the model
-        ref_files, ref_links, ref_dirs = cm.expected_scan(sc, root, cm.ref_decider(sc, root))
-        lines, keys = cm.model_lines_scan(sc, root)
-        mo = run_lines(model, lines, shards=1)
-        co = run_lines(drv, lines, shards=1)
-        mtab = dict(zip(keys, mo))
-        ctab = dict(zip(keys, co))
-        mod_files, mod_links, mod_dirs = cm.expected_scan(sc, root, lambda d, s, n, isd: mtab[(d, s)] == '1')
-        cnt['scan_entries'] += len(keys)
-        cnt['scan_entries_skipped'] += sum(1 for k in keys if ctab[k] == '1')
-        cnt['listed_files'] += len(c_files)
-        cnt['listed_links'] += len(c_links)
-        if (c_files, c_links) != (ref_files, ref_links):
-            bad('cmd_list', 'after sync the array holds %s but the documented rules give %s (difference: %s)' %
-                (cm.fmt(c_files | c_links), cm.fmt(ref_files | ref_links), cm.fmt((c_files | c_links) ^ (ref_files | ref_links))),
-                {'listed': cm.fmt(c_files | c_links), 'expected': cm.fmt(ref_files | ref_links)})
-            return problems, cnt
-        if (mod_files, mod_links, mod_dirs) != (ref_files, ref_links, ref_dirs):
-            bad('cmd_model_drift', 'MODEL-DRIFT: the model walk gives %s, the binary and the reference %s' %
-                (cm.fmt(mod_files | mod_links | mod_dirs), cm.fmt(ref_files | ref_links | ref_dirs)), no_input=True)
-        elif mtab != ctab:
-            dk = [k for k in keys if mtab[k] != ctab[k]]
-            bad('cmd_model_drift', 'MODEL-DRIFT: scan decisions of the model and of elem.c (unit driver) differ on %s' % cm.fmt(dk), no_input=True)
-        elems = [(d, s, 'f') for d, s in sorted(ref_files)] + [(d, s, 'l') for d, s in sorted(ref_links)] + [(d, s, 'd') for d, s in sorted(ref_dirs)]
+        phases = [sc.rules] + ([sc.rules2] if sc.rules2 is not None else [])
+        for ph, rules in enumerate(phases):
+            # phase 1: the configuration is edited (rules added / removed) and sync runs again: what the new rules exclude
+            # must leave the array, what they admit must enter it
+            cm.write_conf(root, sc, rules)
+            rc, out = cm.run_tool(tool, root, ['sync', '-v'] + (['-E'] if ph else []))
+            if ph == 0 and sc.bad_rule is not None:
+                cnt['conf_rejected_expected'] += 1
+                if rc == 0 or b'Invalid' not in out:
+                    bad('cmd_parse', 'configuration rule %r must be rejected (documented forms) but sync exit=%d' % (sc.rules[sc.bad_rule][1], rc),
+                        {'output': out.decode('latin1')[-400:]})
+                return problems, cnt
+            if rc != 0:
+                bad('cmd_sync', 'sync failed (exit %d) on a valid configuration (phase %d)' % (rc, ph), {'output': out.decode('latin1')[-600:], 'phase': ph})
+                return problems, cnt
+            said = cm.parse_verbose(out)
+            log = os.path.join(root, 'list.log')
+            rc, out = cm.run_tool(tool, root, ['list'], log=log)
+            lg = cm.parse_log(log)
+            c_files = set(lg.get('file', []))
+            c_sym = set(lg.get('link_symlink', []))
+            c_hard = dict(lg.get('hardlink_to', {}))
+            # expected by the documentation, and by the model
+            ref = cm.expected_scan(sc, root, cm.ref_decider(sc, root, rules), rules)
+            lines, keys = cm.model_lines_scan(sc, root, rules)
+            mo = run_lines(model, lines, shards=1)
+            co = run_lines(drv, lines, shards=1)
+            mtab = dict(zip(keys, mo))
+            ctab = dict(zip(keys, co))
+            mod = cm.expected_scan(sc, root, cm.table_decider(mtab), rules)
+            if ph:
+                # the copy of the content file written on the first data disk by the first sync is met by the second scan
+                own = (b'content', root.encode() + b'/' + sc.disks[0] + b'/content')
+                ref.msgs.add(own)
+                mod.msgs.add(own)
+            cnt['scan_entries'] += len(keys)
+            cnt['scan_entries_skipped'] += sum(1 for k in keys if ctab[k] != '0')
+            cnt['listed_files'] += len(c_files)
+            cnt['listed_links'] += len(c_sym)
+            cnt['listed_hardlinks'] += len(c_hard)
+            cnt['verbose_messages'] += len(said)
+            cnt['verbose_messages_for_rule'] += sum(1 for m in said if len(m) == 3)
+            cnt['verbose_messages_special_file'] += sum(1 for m in said if m[0] == b'special file')
+            if ph:
+                cnt['resync_with_edited_rules'] += 1
+                cnt['resync_left_array'] += len(prev_listed - (c_files | c_sym | set(c_hard)))
+                cnt['resync_entered_array'] += len((c_files | c_sym | set(c_hard)) - prev_listed)
+            prev_listed = c_files | c_sym | set(c_hard)
+            if (c_files, c_sym, c_hard) != (ref.files, ref.symlinks, ref.hardlinks):
+                got_all = c_files | c_sym | set(c_hard)
+                exp_all = ref.files | ref.links
+                bad('cmd_list', 'after sync%s the array holds %s but the documented rules give %s (difference: %s; hard links %s vs %s)' %
+                    (' with the edited rules %s' % [[('include' if i else 'exclude'), t] for i, t in rules] if ph else '',
+                     cm.fmt(got_all), cm.fmt(exp_all), cm.fmt(got_all ^ exp_all), cm.fmt(set(c_hard)), cm.fmt(set(ref.hardlinks))),
+                    {'listed': cm.fmt(got_all), 'expected': cm.fmt(exp_all), 'phase': ph})
+                return problems, cnt
+            if said != ref.msgs:
+                bad('cmd_verbose', 'sync -v names the wrong entry or rule: printed but not expected %s; expected but not printed %s' %
+                    (sorted(said - ref.msgs)[:4], sorted(ref.msgs - said)[:4]), {'phase': ph})
+            if mod.key() != ref.key() or mod.msgs != ref.msgs:
+                bad('cmd_model_drift', 'MODEL-DRIFT: the model walk gives %s / messages %s, the binary and the reference %s / %s' %
+                    (cm.fmt(mod.files | mod.links | mod.dirs), sorted(mod.msgs - ref.msgs)[:3], cm.fmt(ref.files | ref.links | ref.dirs),
+                     sorted(ref.msgs - mod.msgs)[:3]), no_input=True)
+            elif mtab != ctab:
+                dk = [k for k in keys if mtab[k] != ctab[k]]
+                bad('cmd_model_drift', 'MODEL-DRIFT: scan decisions of the model and of elem.c (unit driver) differ on %s' % cm.fmt(dk), no_input=True)
+            # the stale temporary content copy is replaced and renamed by the save
+            t0 = sc.trees[sc.disks[0]]
+            if (b'content.tmp', 'f') in t0:
+                t0.remove((b'content.tmp', 'f'))
+        ref_files, ref_links, ref_dirs = ref.files, ref.links, ref.dirs
+        elems = [(d, s, 'f') for d, s in sorted(ref_files)] + [(d, s, 'l') for d, s in sorted(ref.symlinks)] + \
+                [(d, s, 'h') for d, s in sorted(ref.hardlinks)] + [(d, s, 'd') for d, s in sorted(ref_dirs)]
         sizes = {}
         for d, s in ref_files:
             sizes[(d, s)] = os.path.getsize(os.path.join(root.encode(), d, s))
@@ -406,10 +444,15 @@ def run_scenario(tool, model, drv, sc, base):
         exp_mod = set((d, s) for (d, s, k), o in zip(elems, so) if o == '0')
         present = cm.fs_present(root, sc)
         exp_present = set((d, s) for d, s in exp_ref if (d, s) not in ref_dirs)
+        # a selected hard link whose file is not selected cannot be recreated (its target does not exist): no claim on it
+        loose = set((d, s) for (d, s), to in ref.hardlinks.items() if (d, to) not in exp_ref)
+        if loose:
+            cnt['fix_hardlinks_without_claim'] += len(loose)
+            got, exp_ref, exp_mod, present, exp_present = got - loose, exp_ref - loose, exp_mod - loose, present - loose, exp_present - loose
         cnt['fix_selections'] += 1
         cnt['fix_recreated'] += len(got)
         cnt['fix_left_alone'] += len(elems) - len(got)
-        if rc != 0:
+        if rc != 0 and not loose:
             bad('cmd_fix', 'fix %s failed with exit %d' % (args, rc), {'output': out.decode('latin1')[-400:]})
         elif not noclaim and got != exp_ref:
             bad('cmd_fix_sel', 'fix -f %s -d %s recreated %s, the documented selection is %s' % (fpat, dpat, cm.fmt(got), cm.fmt(exp_ref)),
@@ -421,6 +464,8 @@ def run_scenario(tool, model, drv, sc, base):
             bad('cmd_fix_model_drift', 'MODEL-DRIFT: state_filter model selects %s, fix recreated %s' % (cm.fmt(exp_mod), cm.fmt(got)), no_input=True)
 
         # ---- fix -m : only what is missing
+        if loose:
+            rc = 0
         if rc == 0 and elems:
             # restore everything, then lose a subset
             rc2, out2 = cm.run_tool(tool, root, ['fix'])
@@ -512,6 +557,81 @@ def run_scenario(tool, model, drv, sc, base):
         bad('cmd_harness', 'harness error in scenario: %s' % traceback.format_exc()[-800:], no_input=True)
     finally:
         shutil.rmtree(root, ignore_errors=True)
+    return problems, cnt
+
+
+def run_refusals(tool, model, base, rng, thorough):
+    """rule texts the documentation does not allow (configuration and command line), selection options on commands that
+    do not take them, -e with -d: every one must be refused, and nothing on disk may change.  -> (problems, counters)"""
+    import c18_dmg as dm
+    root = os.path.join(base, 'refuse')
+    problems = []
+    cnt = collections.Counter()
+    for x in ('d1/a', 'd2', 'p', 'q', 'c'):
+        os.makedirs(os.path.join(root, x))
+    for nm, txt in (('d1/a/x.c', b'x' * 700), ('d1/y', b'y' * 1500), ('d2/z.c', b'z' * 100)):
+        open(os.path.join(root, nm), 'wb').write(txt)
+    base_conf = 'blocksize 1\nparity %s/p/parity\n2-parity %s/q/parity2\ncontent %s/c/content\ndata d1 %s/d1\ndata d2 %s/d2\n' % ((root,) * 5)
+    open(os.path.join(root, 'conf'), 'w').write(base_conf)
+    rc, out = cm.run_tool(tool, root, ['sync'])
+    if rc != 0:
+        return [('refuse_setup', 'sync failed on the plain array of the refusal family', {'output': out.decode('latin1')[-300:]}, True)], cnt
+
+    def snap():
+        d = dm.snapshot(root)
+        d['c/content'] = open(os.path.join(root, 'c/content'), 'rb').read()
+        return d
+    before = snap()
+
+    def expect_refusal(tag, args, needle, why, conf_extra=None):
+        if conf_extra is not None:
+            open(os.path.join(root, 'conf'), 'wb').write(base_conf.encode() + conf_extra)
+        rc, out = cm.run_tool(tool, root, args)
+        if conf_extra is not None:
+            open(os.path.join(root, 'conf'), 'w').write(base_conf)
+        after = snap()
+        cnt['refusals'] += 1
+        cnt['refusals_' + tag] += 1
+        rep = {'command': [a.decode('latin1') if isinstance(a, bytes) else a for a in args],
+               'configuration_lines_added': conf_extra.decode('latin1') if conf_extra else None, 'output': out.decode('latin1')[-400:]}
+        if rc == 0 or needle not in out:
+            problems.append(('refuse_' + tag, '%s: %s must be refused (%s); exit %d' % (' '.join(rep['command']), rep['configuration_lines_added'] or '', why, rc), rep, False))
+        elif after != before:
+            problems.append(('refuse_' + tag, '%s is refused but changed %s' % (' '.join(rep['command']), sorted(k for k in set(before) | set(after) if before.get(k) != after.get(k))), rep, False))
+
+    # ---- rule texts: the reference (documented forms) and the model decide which are rejected
+    texts = [b'..', b'.', b'...', b'a/b', b'a/b/', b'./a', b'/a/../b', b'/a//b', b'//', b'a//', b'/.', b'/./', b'/a/.', b'/a/...', b'*/x', b'../x.c',
+             b'/..', b'x/./', b'tmp/../', b'/a/./b/']
+    rng.shuffle(texts)
+    texts = texts if thorough else texts[:10]
+    mo = run_lines(model, ['parse %s' % hx(t) for t in texts], shards=1)
+    for t, m in zip(texts, mo):
+        try:
+            g.RefRule(True, t)
+            rejected = False
+        except ValueError:
+            rejected = True
+        if not rejected:
+            continue
+        if m != 'none':
+            problems.append(('refuse_model_drift', 'MODEL-DRIFT: filter_parse accepts %r, the documented forms do not' % t, {'rule_text': t.decode('latin1')}, True))
+        kw = rng.choice([b'exclude', b'include'])
+        expect_refusal('config_rule', [rng.choice(['sync', 'list', 'check', 'diff'])], b"Invalid '" + kw + b"' specification",
+                       'not one of FILE, DIR/, /PATH/FILE, /PATH/DIR/', conf_extra=kw + b' ' + t + b'\n')
+        expect_refusal('option_f', [rng.choice(['check', 'fix']), '-f', t], b'Invalid filter specification', 'not one of the documented pattern forms')
+    for kw in (b'exclude', b'include'):
+        expect_refusal('config_empty_rule', ['list'], b"Empty '" + kw + b"' specification", 'a rule without a pattern', conf_extra=kw + b'\n')
+    expect_refusal('option_d', ['check', '-d', b'd1/a'], b'Invalid filter specification', 'a disk name holds no slash')
+    expect_refusal('option_d', ['fix', '-d', b'nodisk'], b"doesn't match any", 'no disk has such a name')
+    # ---- selection options belong to check and fix only (-d also to up/down); -e excludes -d
+    for cmd, opt, needle in (('sync', ['-f', b'*.c'], b'You cannot use -f'), ('scrub', ['-f', b'a/'], b'You cannot use -f'),
+                             ('sync', ['-d', b'd1'], b'You cannot use -d'), ('scrub', ['-d', b'd1'], b'You cannot use -d'),
+                             ('sync', ['-m'], b'You cannot use -m'), ('status', ['-m'], b'You cannot use -m'),
+                             ('sync', ['-e'], b'You cannot use -e'), ('list', ['-e'], b'You cannot use -e'),
+                             ('list', ['-f', b'*.c'], b'You cannot use -f'), ('diff', ['-d', b'd1'], b'You cannot use -d'),
+                             ('check', ['-e', '-d', b'd1'], b'simultaneously'), ('fix', ['-b', '-d', b'd2'], b'simultaneously')):
+        expect_refusal('misplaced_option', opt + [cmd], needle, 'the manual allows this option only with check and fix')
+    shutil.rmtree(root, ignore_errors=True)
     return problems, cnt
 
 
@@ -638,7 +758,7 @@ def main(tier, replay=None):
 
     # ---- command level
     base = mkscratch('snapverif.c18cmd.')
-    nsc = 200 if thorough else 64
+    nsc = 200 if thorough else 48
     scs = [cm.Scenario(rng, i) for i in range(nsc)]
     ccnt = collections.Counter()
     nprob = 0
@@ -667,6 +787,15 @@ def main(tier, replay=None):
                 ndmg += 1
                 if ndmg <= 4:
                     chk.violation('%s_%d' % (tag, lay.idx), what, rep, no_input=noinp)
+
+    # ---- refusals: rejected rule texts in the configuration and on the command line, misplaced selection options
+    problems, cnt = run_refusals(tool, model, base, rng, thorough)
+    ccnt.update(cnt)
+    for tag, what, rep, noinp in problems[:6]:
+        if noinp and 'model_drift' in tag:
+            drift(tag, what, rep)
+        else:
+            chk.violation(tag, what, rep, no_input=noinp)
 
     # ---- the refuted theorem's witness on the real binary
     rep, ok_canon, wout = replay_content_witness(tool, base)
